@@ -8,7 +8,7 @@ import (
 // C15: list commands against a reference sequence.
 
 func init() {
-	register("C15", familyCheck{&familySpec{Prop: "C15", Kinds: []string{"list"}, Ref: refList,
+	register("C15", familyCheck{&familySpec{Prop: "C15", Kinds: []string{"list"}, Ref: refList, Deep: []Action{cmd("LRANGE", "l", "0", "-1"), cmd("RPUSH", "l", "z"), cmd("LPUSH", "l", "y"), cmd("RPOP", "l"), cmd("LPOP", "l", "2"), cmd("RPOP", "l", "2"), cmd("LMOVE", "l", "l2", "RIGHT", "LEFT"), cmd("LMOVE", "l2", "l", "LEFT", "RIGHT"), cmd("LSET", "l", "0", "s"), cmd("LREM", "l", "-1", "a"), cmd("LTRIM", "l", "1", "-1"), cmd("LINDEX", "l", "-1"), cmd("LLEN", "l2"), cmd("RPUSH", "l2", "w")},
 		Title: "refList (a Go slice: push/pop at both ends, index normalisation with clamping, LSET, inclusive LTRIM, LREM by count and direction, LMOVE as pop+push)"}})
 }
 
